@@ -314,6 +314,11 @@ def gen_rpms_doc(rng):
 
 
 def render_rpms_doc(Dc):
+    from rv import formats as _formats
+    import random as _random
+    layout = Dc["layout"]
+    if len(json.dumps(layout)) % 2 == 0:
+        Dc = dict(Dc, layout=_formats.shuffle_keys(layout, _random.Random(len(json.dumps(layout)))))
     return {"header": {"version": "0.3"},
             "payload": {"compose": {"id": "X-1-20200101.0", "type": "production", "date": "20200101", "respin": 0},
                         "manifest": copy.deepcopy(Dc["layout"])}}
